@@ -384,7 +384,12 @@ func (r *Resolver) Resolve(ctx context.Context, name string) (ResolveResult, err
 		}
 		if len(https) > 0 {
 			// Alias Mode: Priority = 0
+			// An alias record takes precedence over service records
+			// of the same RRSet. RFC 9460 2.4.1
 			v := https[0].(dns.HTTPS)
+			if i := slices.IndexFunc(https, func(a any) bool { return a.(dns.HTTPS).Priority == 0 }); i > 0 {
+				v = https[i].(dns.HTTPS)
+			}
 			if v.Priority == 0 && len(v.Target) == 0 {
 				result.HTTPS = nil
 				break
